@@ -37,9 +37,25 @@ func symArgs(args []Value) bool {
 func unknownCall(name string, args []Value) Value {
 	var ss []string
 	for _, a := range args {
-		ss = append(ss, Show(a))
+		ss = append(ss, TermOf(a))
 	}
-	return &Unknown{Why: name + "(" + strings.Join(ss, ", ") + ")"}
+	return &Unknown{Why: name + "(" + strings.Join(ss, ",") + ")"}
+}
+
+// TermOf renders a value as a canonical term: unknown values keep the
+// expression that produced them, so two unknowns can be compared by shape.
+func TermOf(v Value) string {
+	switch v := v.(type) {
+	case *Unknown:
+		return v.Why
+	case *Sym:
+		return fmt.Sprintf("%q", v.Flat())
+	case int64:
+		return fmt.Sprint(v)
+	case bool:
+		return fmt.Sprint(v)
+	}
+	return Show(v)
 }
 
 func strList(ss []string) *List {
